@@ -13,6 +13,7 @@ import (
 	"os"
 	"os/exec"
 	"path/filepath"
+	"sort"
 	"strconv"
 	"strings"
 	"syscall"
@@ -129,7 +130,7 @@ func run(c *harness.Ctx, i int) {
 	dir := c.CaseDir()
 	src := filepath.Join(dir, "src")
 	if err := treegen.Materialize(src, entries); err != nil {
-		c.Inconclusive("cannot materialize: %v", err)
+		c.Skip("cannot materialize: %v", err)
 		return
 	}
 	want, err := treegen.Snapshot(src)
@@ -194,7 +195,7 @@ func run(c *harness.Ctx, i int) {
 				older = append(older, o)
 			}
 			if err := treegen.Materialize(dst, older); err != nil {
-				c.Inconclusive("cannot materialize the older copy: %v", err)
+				c.Skip("cannot materialize the older copy: %v", err)
 				return
 			}
 			c.Count("unpacked_over_older_copy", 1)
@@ -291,7 +292,7 @@ func oneFileSystem(c *harness.Ctx, o treegen.Options) {
 	dir := c.CaseDir()
 	src := filepath.Join(dir, "src")
 	if err := treegen.Materialize(src, entries); err != nil {
-		c.Inconclusive("cannot materialize: %v", err)
+		c.Skip("cannot materialize: %v", err)
 		return
 	}
 	// mount point: an existing directory of the tree, or a new one whose name sorts early / in the middle / late
@@ -311,7 +312,7 @@ func oneFileSystem(c *harness.Ctx, o treegen.Options) {
 		}
 		mp = filepath.Join(parent, []string{"0-mnt", "m-mnt", "zzz-mnt"}[rng.Intn(3)])
 		if err := os.Mkdir(filepath.Join(src, mp), 0755); err != nil {
-			c.Inconclusive("mkdir mount point: %v", err)
+			c.Skip("mkdir mount point: %v", err)
 			return
 		}
 		pt := time.Unix(1500000000, 0)
@@ -376,6 +377,25 @@ func oneFileSystem(c *harness.Ctx, o treegen.Options) {
 // tarIn: a tar stream of the tree (GNU tar or Go's writer) -> TarReader -> catar -> disk; ground truth = what Go's tar reader says the stream holds.
 func tarIn(c *harness.Ctx, rng interface{ Intn(int) int }, src, dst, dir string, srcSnap map[string]treegen.Snap) bool {
 	tarFile := filepath.Join(dir, "in.tar")
+	// a second link to one of the files: GNU tar writes the second name as a hard-link member without content
+	hardlinks := false
+	if rng.Intn(4) == 0 {
+		var files []string
+		for p, sn := range srcSnap {
+			if sn.Type == "file" && len(p) < 200 {
+				files = append(files, p)
+			}
+		}
+		sort.Strings(files)
+		if len(files) > 0 {
+			f := files[rng.Intn(len(files))]
+			if os.Link(filepath.Join(src, f), filepath.Join(src, f+".2nd-link")) == nil {
+				hardlinks = true
+				pt := time.Unix(0, srcSnap[filepath.Dir(f)].MTime)
+				os.Chtimes(filepath.Join(src, filepath.Dir(f)), pt, pt)
+			}
+		}
+	}
 	producer := []string{"gnutar-gnu", "gnutar-pax"}[rng.Intn(2)]
 	format := "gnu"
 	args := []string{"-cf", tarFile, "--numeric-owner", "--no-recursion", "-C", src}
@@ -407,7 +427,7 @@ func tarIn(c *harness.Ctx, rng interface{ Intn(int) int }, src, dst, dir string,
 	cmd := exec.Command("tar", args...)
 	cmd.Stdin = &list
 	if out, err := cmd.CombinedOutput(); err != nil {
-		c.Inconclusive("GNU tar could not pack the tree: %v %s", err, out)
+		c.Skip("GNU tar could not pack the tree: %v %s", err, out)
 		return true
 	}
 	raw, _ := os.ReadFile(tarFile)
@@ -438,16 +458,17 @@ func tarIn(c *harness.Ctx, rng interface{ Intn(int) int }, src, dst, dir string,
 			variant = "plain"
 			break
 		}
-		end := len(raw)
-		for end >= 512 && bytes.Equal(raw[end-512:end], make([]byte, 512)) {
-			end -= 512
+		// appended by GNU tar itself
+		extra := filepath.Join(dir, "extra")
+		os.MkdirAll(filepath.Join(extra, firstDir), 0755)
+		os.WriteFile(filepath.Join(extra, firstDir, "appended-later"), []byte("later"), 0644)
+		if out, err := exec.Command("tar", "--numeric-owner", "--no-recursion", "-rf", tarFile, "-C", extra, "./"+firstDir+"/appended-later").CombinedOutput(); err != nil {
+			c.Count("tar_append_failed", 1)
+			_ = out
+			variant = "plain"
+			break
 		}
-		var ab bytes.Buffer
-		tw := tar.NewWriter(&ab)
-		tw.WriteHeader(&tar.Header{Typeflag: tar.TypeReg, Name: "./" + firstDir + "/appended-later", Mode: 0644, Size: 5, ModTime: time.Unix(1500000000, 0), Format: tar.FormatPAX})
-		tw.Write([]byte("later"))
-		tw.Close()
-		raw = append(raw[:end:end], ab.Bytes()...)
+		raw, _ = os.ReadFile(tarFile)
 	}
 	producer += "+" + variant
 	// ground truth from the stream
@@ -459,7 +480,7 @@ func tarIn(c *harness.Ctx, rng interface{ Intn(int) int }, src, dst, dir string,
 			break
 		}
 		if err != nil {
-			c.Inconclusive("Go's tar reader rejects the stream: %v", err)
+			c.Skip("Go's tar reader rejects the stream: %v", err)
 			return true
 		}
 		p := filepath.Clean(h.Name)
@@ -481,6 +502,13 @@ func tarIn(c *harness.Ctx, rng interface{ Intn(int) int }, src, dst, dir string,
 		case tar.TypeBlock:
 			s.Type = "blk"
 			s.Rdev = unix.Mkdev(uint32(h.Devmajor), uint32(h.Devminor))
+		case tar.TypeLink:
+			// a hard link: the content of the member it names
+			t, ok := want[filepath.Clean(h.Linkname)]
+			if !ok {
+				continue
+			}
+			s.Type, s.Size, s.Hash = "file", t.Size, t.Hash
 		default:
 			continue
 		}
@@ -496,6 +524,12 @@ func tarIn(c *harness.Ctx, rng interface{ Intn(int) int }, src, dst, dir string,
 	}
 	var cat bytes.Buffer
 	if err := desync.Tar(context.Background(), &cat, desync.NewTarReader(bytes.NewReader(raw), desync.TarReaderOptions{})); err != nil {
+		if hardlinks {
+			// the archive format has no hard links and the content is not at hand when the link member comes: refusing
+			// the stream is fine, writing an empty file under the second name is not
+			c.Count("tar_streams_refused_for_hard_links", 1)
+			return true
+		}
 		if variant == "appended-member" {
 			// members that do not follow their directory cannot be represented in one pass: refusing them is fine,
 			// dropping them silently is not
